@@ -15,7 +15,7 @@ from sa import sigdata, families, codec, tables
 from sa.interp import alpha, sl, Interp, Scenario, Sym, Const, Bytes, Enum, render, render_items, merge_consts, render_item
 from sa.loader import AnalysisError, dotted
 from sa.sigdata import enum_const
-from sa.templates import resolve_lookup, area_template, match, render_template
+from sa.templates import resolve_lookup, display_keys, area_template, match, render_template
 
 noinline = lambda f: False  # noqa: E731
 
@@ -362,12 +362,29 @@ def signing_algorithms(prog):
     return out
 
 
+def _consistent_with_displays(s):
+    """False for a path that took a decision `K in {display}` / `K not in {display}` against what the display (a rendered dict,
+    set or tuple literal with decided keys) says: such a path does not exist."""
+    from sa.guards import atoms, eval_skel
+    for text, value, sk in s.facts:
+        def val(atom):
+            if atom[0] == 'cmp' and atom[1] in ('in', 'not in'):
+                keys = display_keys(atom[3])
+                if keys is not None and re.match(r'^[\w.]+$', atom[2]) and all(re.match(r'^[\w.]+$', k) for k in keys):
+                    return (atom[2] in keys) == (atom[1] == 'in')
+            return None
+        v = eval_skel(sk, val) if sk is not None else None
+        if v is not None and v != value:
+            return False
+    return True
+
+
 def signature_class_for(prog, f, e):
     """Class SignatureV4.pubalg_int installs as `self.signature` when the algorithm octet is member e (table or if-chain)."""
     sc = Scenario(args=at(f, p1=e), inline=noinline, inline_props={'pubalg'})
     got = set()
     for s in Interp(prog, sc).run(f):
-        if s.raised:
+        if s.raised or not _consistent_with_displays(s):
             continue
         st = [v for p, v, l, _ in s.stores if p == 'self.signature']
         if len(st) != 1:
@@ -390,6 +407,9 @@ def check_sig_codecs(rep, prog):
     members = dict(_pk_members(prog)[1])
     fields = prog.module('pgpy.packet.fields')
     want = {'RSAEncryptOrSign': 'RSASignature', 'DSA': 'DSASignature', 'ECDSA': 'ECDSASignature', 'EdDSA': 'EdDSASignature'}
+    # RFC 4880 9.1 / RFC 6637 / EdDSA draft: the algorithms that make signatures
+    rep.check(set(want) <= set(signers), 'C02.4', 'PubKeyAlgorithm.can_sign', 'signing algorithms %s' % signers,
+              'an algorithm that makes signatures is not treated as one', where=f.where, expected=sorted(want), found=signers)
     for a in signers:
         got = signature_class_for(prog, f, members[a])
         rep.check(got == want.get(a), 'C02.4', 'SignatureV4.pubalg_int', '%s -> %s' % (a, got),
